@@ -71,6 +71,15 @@ class PathConditions:
                 elif st.orelse and _always_exits(st.orelse):
                     cur = cur + pos
                     raw = raw + ((st, True),)
+                else:
+                    # an if / elif / else chain some of whose arms leave: what follows runs under the disjunction of the others
+                    surv, leaves = self._survivors([st])
+                    if surv is not None and 1 <= len(surv) < leaves:
+                        common = [l for l in surv[0] if all(l in s for s in surv)]
+                        cur = cur + tuple(l for l in common if l not in cur)
+                        rest = [tuple(l for l in s if l not in common) for s in surv]
+                        if len(surv) > 1 and all(rest):
+                            cur = cur + (("or", tuple(r[0] if len(r) == 1 else ("and", r) for r in rest)),)
             elif isinstance(st, ast.While):
                 t = self.b.term(st.test, st)
                 self._block(st.body, cur + tuple(literals(t, True)), raw + ((st, True),))
@@ -89,6 +98,29 @@ class PathConditions:
             elif isinstance(st, ast.Assert):
                 t = self.b.term(st.test, st)
                 cur = cur + tuple(literals(t, True))
+
+    def _survivors(self, stmts, limit=8):
+        """(paths, leaves): the literal conjunctions under which the block completes normally, and the number of
+        branch leaves met; (None, 0) when too many.  Statements other than if are taken to complete."""
+        paths, leaves = [()], 1
+        for st in stmts:
+            if isinstance(st, (ast.Raise, ast.Return, ast.Continue, ast.Break)):
+                return [], leaves
+            if isinstance(st, ast.If):
+                t = self.b.term(st.test, st)
+                pos, neg = tuple(literals(t, True)), tuple(literals(t, False))
+                sb, lb = self._survivors(st.body, limit)
+                so, lo = self._survivors(st.orelse, limit)
+                if sb is None or so is None:
+                    return None, 0
+                arms = [pos + s for s in sb] + [neg + s for s in so]
+                paths = [p + a for p in paths for a in arms]
+                leaves = leaves * (lb + lo)
+                if len(paths) > limit or leaves > 4 * limit:
+                    return None, 0
+            elif isinstance(st, ast.Try) and _always_exits([st]):
+                return [], leaves
+        return paths, leaves
 
     def of(self, st):
         return self.pc.get(id(st), ())
